@@ -71,3 +71,10 @@ pub assume_specification<'a, T, B, F> [ <std::slice::Iter<'a, T> as std::iter::I
             ==> r == #[trigger] s.fold_left(init, g),
 ;
 
+
+// std: Option::replace "Replaces the actual value in the option by the value given in parameter, returning the old value if present"
+pub assume_specification<T> [ std::option::Option::<T>::replace ] (o: &mut std::option::Option<T>, v: T) -> (r: std::option::Option<T>)
+    ensures
+        r == *old(o),
+        *final(o) == Some(v),
+;
